@@ -351,3 +351,25 @@ def run_history(source, nsteps=None):
         if res[0] == 'hang':
             break
     return ops, wires, recs
+
+
+def build_values(rng, n_hist, steps=8, kinds=(0,), odd=False, weights=None, unicode_=True, maxlen=8):
+    """live objects built by random histories (for direct tests): -> list of (object, history that built the pool)"""
+    from .hist import HistGen
+    w = weights or {'new': 3, 'from': 0.5, 'apply': 8, 'remove': 2, 'iadd': 2, 'add': 1.5, 'slice': 1.5, 'pad': 0.7,
+                    'assign': 0.5, 'replace': 0.7, 'clip': 0.5}
+    out = []
+    for _ in range(n_hist):
+        hg = HistGen(rng, weights=w, kinds=kinds, odd=odd, unicode_=unicode_, maxlen=maxlen)
+        pool = Pool()
+        ops = []
+        for t in range(steps):
+            op = hg.next_op(pool.objs)
+            try:
+                pool.run(op)
+            except (IndexError, KeyError):
+                break
+            ops.append(op)
+        for i, o in enumerate(pool.objs):
+            out.append((o, ops, i))
+    return out
